@@ -472,6 +472,10 @@ func oracleC01(r *OpRun) {
 					sig := "lost-event"
 					if r2during {
 						sig = "second-reader-during-sync"
+					} else if b.NsLabel != nil && r.e.S.Counters["fault:list-failed"] > 0 && r.noInformerFor(mid, strings.SplitN(k, "/", 2)[0]) {
+						// the list of that namespace failed for the monitor in use and is never retried (known
+						// finding); the change was shown to an informer of a monitor instance that had been replaced
+						sig = "dynamic-namespace-list-failure-not-retried"
 					}
 					vw := "(absent)"
 					if inView {
